@@ -1,20 +1,24 @@
-(* C10Cases.v — the correspondence cases of property C10 are of two kinds: operation scripts
-   against the RowHistory kernel (RowHistory.case) and whole recipes with random_reference run by
-   the interpreter model (Interp.case, which contains that kernel).                          *)
+(* C10Cases.v — the correspondence cases of property C10 are of three kinds: operation scripts
+   against the RowHistory kernel (RowHistory.case), whole recipes with random_reference run by
+   the interpreter model (Interp.case, which contains that kernel), and traces of several call
+   sites of (unique) random_reference over one row history (RowHistory.mcase).               *)
 From SFV Require Import Base RandRange RowHistory Interp.
 
 Inductive kcase :=
 | KScript (c : RowHistory.case)
-| KRecipe (c : Interp.case).
+| KRecipe (c : Interp.case)
+| KMulti (c : RowHistory.mcase).
 
 Definition check_kcase (c : kcase) : bool :=
   match c with
   | KScript k => RowHistory.check_case k
   | KRecipe k => Interp.check_case k
+  | KMulti k => RowHistory.check_mcase k
   end.
 
 Definition kcase_unsupported (c : kcase) : bool :=
   match c with
   | KScript _ => false
   | KRecipe k => Interp.case_unsupported k
+  | KMulti _ => false
   end.
